@@ -460,6 +460,13 @@ def check_refusals(case, ctx: Ctx):
             return
         ctx.refused("a + b with different bins", lambda: a + b)
         ctx.refused("a += b with different bins", a.__iadd__, b)
+    elif kind == "gapped_inner_edge":
+        # inconsecutive bins that differ in one *inner* right edge only (same left edges, same outer edges)
+        b = hgen.build(case["b"])
+        ctx.refused("a + b (an inner right edge differs)", lambda: a + b)
+        ctx.refused("b + a (an inner right edge differs)", lambda: b + a)
+        ctx.refused("a += b (an inner right edge differs)", a.__iadd__, b)
+        ctx.refused("sum([a, b])", sum, [a, b])
     elif kind == "adaptive_other_grid":
         # adaptive operands whose grids differ only slightly (width or shift): there is no common grid
         w = case["w"]
@@ -496,7 +503,25 @@ def check_refusals(case, ctx: Ctx):
 
 @st.composite
 def refusal_cases(draw, tier="quick"):
-    kind = draw(st.sampled_from(["different_edges", "different_edges", "different_ndim", "scalar", "list", "array", "str", "none", "adaptive_other_grid", "adaptive_other_grid"]))
+    kind = draw(st.sampled_from(["different_edges", "different_edges", "different_ndim", "scalar", "list", "array", "str", "none", "adaptive_other_grid", "adaptive_other_grid",
+                                 "gapped_inner_edge"]))
+    if kind == "gapped_inner_edge":
+        n_ = draw(st.integers(2, 5))
+        x_, ps_ = float(draw(st.integers(-3, 3))), []
+        for _ in range(n_):
+            w_ = draw(st.sampled_from([0.5, 1.0, 2.0]))
+            ps_.append([x_, x_ + w_])
+            x_ += w_ + draw(st.sampled_from([0.5, 1.0]))  # a real gap after every bin
+        j_ = draw(st.integers(0, n_ - 2))
+        ps_b = [list(p) for p in ps_]
+        ps_b[j_][1] = ps_b[j_][0] + (ps_b[j_][1] - ps_b[j_][0]) / 2
+        d_ = draw(st.sampled_from([1, 1, 2]))
+        def spec_(pairs):
+            axes = [{"form": "static", "pairs": pairs, "incl": True}] + ([{"form": "numpy", "pairs": [[0.0, 1.0], [1.0, 2.0]], "incl": True}] if d_ == 2 else [])
+            shape = [len(a["pairs"]) for a in axes]
+            freq = [1] * shape[0] if d_ == 1 else [[1] * shape[1] for _ in range(shape[0])]
+            return {"axes": axes, "dtype": "int64", "freq": freq, "err2": None, "missed": [0, 0, 0] if d_ == 1 else [0], "keep_missed": True, "meta": {}, "adaptive": False}
+        return {"kind": kind, "a": spec_(ps_), "b": spec_(ps_b), "prelude": None}
     if kind == "adaptive_other_grid":
         dw, dshift = draw(st.sampled_from([(3e-6, 0), (1e-7, 0), (0, 0.5), (0, 1e-6), (0.5, 0), (1e-9, 0), (0, 0.25)]))
         return {"kind": kind, "a": draw(hgen.hist_spec(dims=(1,), dtypes=["int64"], max_bins=2, adaptive=False, forms=("numpy",), rich_meta=False)),
